@@ -34,6 +34,10 @@ fn only_header_backslashes_dropped(text: &[u8], out: &[u8]) -> bool {
             if !before[open..].contains(&b'"') {
                 return false;
             }
+            // only SUPERFLUOUS escapes belong to the known class: `\"` and `\\` must be written back
+            if matches!(text.get(i + 1), Some(b'"' | b'\\') | None) {
+                return false;
+            }
             dropped += 1;
             i += 1;
             continue;
@@ -287,7 +291,7 @@ fn label_feat(c: &mut Case, ft: &Feat) {
     c.label_if(ft.inner_tab > 0, "inner-tab");
 }
 
-fn main() {
+pub fn main() {
     let mut ck = Check::new("C26", "exploration");
     ck.rule("Config texts decoded from a byte tape by a grammar (optional BOM; [name], [name \"sub\"] with escapes, legacy [name.sub]; keys from a small pool so that sections and keys repeat; implicit, empty and fragment-built values: words, blank runs, quoted parts, \\n \\t \\b \\\\ \\\" escapes, LF/CRLF continuations inside and outside quotes; trailing blanks, inline and full-line comments, blank lines, LF/CRLF/mixed, missing final newline, entries on the header line), plus 1-4 byte-level mutations of such texts that still parse, plus the repository's fixture files. Non-trivial: the input parses, has >= 2 sections and >= 1 continuation line or quoted value part. Distinct by hash of the input text.");
     ck.assume("File::to_bstring() is allowed to insert newlines (documented as 'mostly lossless'); the statement only requires semantic equality for the File round-trip");
